@@ -20,7 +20,8 @@ the real bytes call by call, `ffi:bytes-differ`), `ffi_cursor_exact_stream` (the
 `CursorsAgree` is a theorem for all four operations, accepted or refused calls, with no hypothesis
 on the payload encoder), `total_tracks_stream` / `total_out_cell_stream` (the hypothesis
 `TotalTracks` is a theorem) and `total_out_is_sum_stream` (along any history of C ABI calls
-`*total_out` is the number of bytes delivered so far, `take_output` bytes INCLUDED, modulo 2^64).
+`*total_out` is the number of bytes delivered so far, `take_output` bytes INCLUDED, modulo 2^64),
+`take_output_never_panics_stream` (`OutOk` holds after every such history: `TakeOutput` cannot panic).
 `catch_unwind` itself, the `extern "C"` ABI and the validity of the caller's pointers are runtime
 facts outside the model.
 -/
@@ -389,6 +390,24 @@ theorem total_out_is_sum_stream (o : Oracle) (fuel : Nat) (mem : Mem) (calls : L
     obtain ⟨p, rfl⟩ := hf; rfl
   obtain ⟨h1, h2⟩ := ffiRun_total (runOK_fresh hf) hok (by rw [hip]; omega) hT0 (by intro x hx; cases hx) h
   exact ⟨h2, h1⟩
+
+/-- `unwrapped_entry_points_cannot_panic`, closed over histories (`take_output_never_panics_stream`):
+the side condition `OutOk` of `unwrapped_entry_points_cannot_panic` is a THEOREM — after ANY history
+of C ABI calls on a fresh instance in which no Rust call unwound (any operations, capacities, take
+sizes; no hypothesis on the payload encoder: neither `OracleOK` nor `OracleBounded`), the pending
+bytes lie inside the buffer `next_out_` points into, so `BrotliEncoderTakeOutput`, which is NOT
+behind `catch_panic`, returns normally for every `size`, hands out a prefix of the pending bytes
+and leaves `OutOk` in place.  (Invariants used: `StoreOK` of C01, `TinyOK` + carry ≤ 14 bits proved
+here atom by atom without the oracle bound, `Lemmas/StreamTinyFree`.) -/
+theorem take_output_never_panics_stream (o : Oracle) (fuel : Nat) (mem : Mem) (calls : List FfiCall) (s0 : St)
+    (hf : IsFresh s0) (hok : FfiHistOK mem calls) (hw : ffiHistLen calls < two64)
+    (s : St) (seen : FfiSeen) (h : ffiRun o fuel mem calls s0 {} = some (s, seen)) :
+    OutOk s ∧ ∀ size, ∃ s' n bytes, ffiTakeOutput s size = .ok (s', n, bytes) ∧ n = bytes.length ∧ OutOk s' ∧
+      s.pending = bytes ++ s'.pending := by
+  obtain ⟨_, _, hip, _, _⟩ := isFresh_fields hf
+  have hJ := ffiRun_histInv (histInv_fresh hf) hok (by rw [hip]; omega) h
+  have hO := outOk_of_histInv hJ
+  exact ⟨hO, fun size => (unwrapped_entry_points_cannot_panic s).2.2.2.2 size hO⟩
 
 /-! ### the hypothesis `OracleBounded` (used by C11 / C20 / C01, no longer by C13)
 
